@@ -130,7 +130,10 @@ func c13Observe(out *bytes.Buffer, bnd *soy.Bundle, entry string, d map[string]r
 	out.WriteString(strings.Join(msgs, "\n") + "\n")
 	// rendered output (error text of render errors embeds stack traces: only success/failure is compared)
 	tofu := soyhtml.NewTofu(reg)
-	for _, e := range []string{entry, "ex.main"} {
+	for _, e := range []string{entry, "ex.main", "chain.user.main"} {
+		if _, ok := reg.Template(e); !ok {
+			continue
+		}
 		got, rerr := render(tofu, e, d, ij, nil)
 		fmt.Fprintf(out, "RENDER %s %s %q\n", e, errClass(rerr), got)
 	}
@@ -185,6 +188,15 @@ func c13Program(seed uint64, tier string) (files []srcFile, prog *gen.Program, h
 		files[0] = long
 		files = append(files, srcFile{"tiny.soy", "{namespace tiny}\n{template .x}{if}{/template}\n"})
 		hasErr = true
+	}
+	if r.P(1, 3) {
+		// aliases whose names chain (the last segment of one is the first segment of another): each call name is
+		// resolved once, through the alias of its own first segment
+		files = append(files,
+			srcFile{"chainuser.soy", "{namespace chain.user}\n{alias foo.bar}\n{alias x.foo}\n{alias bar.x}\n/** */\n{template .main}{call bar.t /}{call foo.u /}{call x.v /}{call bar.t data=\"all\" /}{/template}\n"},
+			srcFile{"chain1.soy", "{namespace foo.bar}\n/** */\n{template .t}T{/template}\n"},
+			srcFile{"chain2.soy", "{namespace x.foo}\n/** */\n{template .u}U{/template}\n"},
+			srcFile{"chain3.soy", "{namespace bar.x}\n/** */\n{template .v}V{/template}\n"})
 	}
 	if r.P(1, 8) {
 		// a second source of globals that defines three names again: one error, always the same one
@@ -253,9 +265,9 @@ func init() {
 			"distinct = distinct bundle; non-trivial = all",
 		N: func(tier string) int {
 			if tier == "thorough" {
-				return 30000
+				return 20000
 			}
-			return 1500
+			return 1000
 		},
 		Setup: func(tier string, seed uint64, config string) string {
 			soyhtml.Funcs["verifHtmlOnly"] = soyhtml.Func{Apply: func(a []data.Value) data.Value { return data.Int(0) }, ValidArgLengths: []int{1}}
@@ -354,7 +366,12 @@ func init() {
 				}
 				perms = sample
 			}
-			twoErrors := files[len(files)-1].Name == "tiny.soy" || (len(files) > 1 && files[len(files)-2].Name == "tiny.soy")
+			twoErrors := false
+			for _, f := range files {
+				if f.Name == "tiny.soy" {
+					twoErrors = true
+				}
+			}
 			if twoErrors {
 				ctx.Obs("bundles_with_two_errors", 1)
 			}
